@@ -187,6 +187,10 @@ func newRig(t ev.TB, part string, su Setup) (r *rig, err error) {
 	c, err := mesh.NewCase(mesh.Opts{Down: su.Proto, Up: su.Proto, Hosts: r.addrs,
 		Timeout: time.Duration(su.GlobalMs) * time.Millisecond, Retry: retry,
 		Cluster: func(cl *v2.Cluster) {
+			// pools per cluster: by default MOSN keeps ONE pool per (protocol, address) for all clusters, and a pool
+			// accounts to the cluster that created it; the harness' upstream ports (port 0) are reused by the kernel
+			// across cases, so a later case would inherit the pool - and the counters - of a deleted cluster
+			cl.ClusterPoolEnable = true
 			if su.Thr != [4]uint32{} {
 				cl.CirBreThresholds = v2.CircuitBreakers{Thresholds: []v2.Thresholds{{MaxRequests: su.Thr[thrReq],
 					MaxPendingRequests: su.Thr[thrPend], MaxRetries: su.Thr[thrRetr], MaxConnections: su.Thr[thrConn]}}}
@@ -672,6 +676,8 @@ func (r *rig) settle(phase string, want expectFn, desc func() string) bool {
 			}
 		}
 		if os.Getenv("C10_DEBUG") != "" {
+			fmt.Fprintf(os.Stderr, "DBG RELOOKUP cluster=%s active=%d\n", r.c.ClusterName,
+				metrics.NewClusterStats(r.c.ClusterName).Counter(metrics.UpstreamConnectionActive).Count())
 			for _, u := range r.ups {
 				if u != nil {
 					out, _ := exec.Command("sh", "-c", "ss -tn | grep "+u.Addr).CombinedOutput()
